@@ -304,7 +304,7 @@ def replay_states(sub, chunk):
             sub.count(1)
             if ops and (not combo["all"] or combo["excl"]):
                 sub.nontrivial((fmt, bname, tuple(tuple(sorted(e.items())) for e in st["h"]), str(commit_kwargs(combo)), flags))
-            if len(sub.cov["samples"]) < 2 and len(ops) > 1 and not combo["all"] and outcome == "ok":
+            if len(sub.cov["samples"]) < 1 and len(ops) > 1 and not combo["all"] and not combo["excl"] and impl["changed"] and outcome == "ok":
                 sub.sample({"format": fmt, "edits": st["h"], "commit": commit_kwargs(combo), "new_revision_tree": impl["tree"],
                             "still_pending": impl["changed"]})
             # on top of the partial commit: commit everything that is left
@@ -342,6 +342,18 @@ def classify_ops(log):
     return out
 
 
+class FaultWorld(sched.World):
+    """sched.World injects `faults` into transport calls only; writes / closes of an open_write_stream stream are gated
+    operations as well, so they are made to fail here."""
+
+    def gate(self, op, path):
+        st = super().gate(op, path)
+        if st is not None and op in ("stream_write", "stream_close") and (self.me(), st["seq"]) in self.faults:
+            self.record(op, path, "FAULT")
+            raise self.faults[(self.me(), st["seq"])]()
+        return st
+
+
 def fault_sweep(sub, chunk):
     """The same commit re-run from a fresh copy with one failure injected per run."""
     from breezy import branch as _b, workingtree
@@ -355,7 +367,7 @@ def fault_sweep(sub, chunk):
             shutil.rmtree(cdir, ignore_errors=True)
             os.makedirs(cdir)
             shutil.copytree(tplb, os.path.join(cdir, "b"), symlinks=True)
-            w = sched.World(backing_url="file://" + cdir + "/", significant=lambda op, path: op in sched.MUTATING)
+            w = FaultWorld(backing_url="file://" + cdir + "/", significant=lambda op, path: op in sched.MUTATING)
             br = _b.Branch.open(w.url("b"))
             tree = br.create_checkout(os.path.join(cdir, "t"), lightweight=True)
             with tree.lock_write():
@@ -398,10 +410,15 @@ def fault_sweep(sub, chunk):
         outcome = run_commit(w, tree)
         log = [e for e in w.log if e["p"] == "c"]
         phases = classify_ops(log)
-        finish(cdir, w, revs0, tip0, outcome, "none", "dry-run", tb, tw, wt_m)
+        part, nparts = job.get("part", (0, 1))
+        if part == 0:
+            finish(cdir, w, revs0, tip0, outcome, "none", "dry-run", tb, tw, wt_m)
+        else:
+            w.close()
+            shutil.rmtree(cdir, ignore_errors=True)
         if outcome != "ok":
             sub.machinery("fault sweep: un-faulted commit failed: %s (%s)" % (outcome, st["h"]))
-        if len(sub.cov["samples"]) < 1:
+        if len(sub.cov["samples"]) < 1 and part == 0:
             sub.sample({"format": fmt, "edits": st["h"], "commit": commit_kwargs(combo),
                         "mutating_transport_operations": [[k + 1, e["op"], (e["path"] or "")[-40:], phases[k]] for k, e in enumerate(log)][:70]})
         n = 0
@@ -412,7 +429,7 @@ def fault_sweep(sub, chunk):
                 if phases[k - 1] != "before-pack-names-written" or (k < len(log) and phases[k] != "before-pack-names-written"):
                     keep.add(k)
             ks = sorted(keep)
-        for k in ks:
+        for k in [k for k in ks if k % nparts == part]:
             n += 1
             cdir, w, tree, revs0, tip0 = setup(n)
             w.faults[("c", k)] = sched.transport_error
@@ -420,7 +437,7 @@ def fault_sweep(sub, chunk):
             e = log[k - 1]
             finish(cdir, w, revs0, tip0, outcome, "transport:%s" % e["op"], phases[k - 1], tb, tw, wt_m)
         # failures injected through the extension points commit already has
-        for name in points.get("named", ()):
+        for name in (points.get("named", ()) if part == 0 else ()):
             n += 1
             cdir, w, tree, revs0, tip0 = setup(n)
             hook = None
@@ -508,9 +525,9 @@ def run(ctx):
         tlc.check(ctx, "CommitModelMC", cfg_text=mc_cfg("B0", 2, 1, 2, 1, False, MC_INV), label="MC B0: 2 edits, 1 commit", workers=16, timeout=3000)
         tlc.check(ctx, "CommitModelMC", cfg_text=mc_cfg("B1", 2, 1, 1, 1, False, MC_INV), label="MC B1: 2 edits, 1 commit", workers=16, timeout=3000)
     # ---- E1/E2: case generation (every state = one TLC initial state, laws checked on the spec's own outcome)
-    plans = [("B0", 2, 2, 1, 24 if q else 1), ("B1", 1 if q else 2, 2, 1, 2 if q else 1)]
+    plans = [("B0", 2, 2, 1, 36 if q else 1), ("B1", 1 if q else 2, 2, 1, 3 if q else 3)]
     if not q:
-        plans.append(("B0", 3, 1, 1, 40))
+        plans.append(("B0", 3, 1, 1, 100))
         plans.append(("B0", 1, 2, 2, 1))
     states = []
     for bname, maxedits, maxsel, maxexcl, stride in plans:
@@ -533,7 +550,7 @@ def run(ctx):
     ctx.cov["generated_selection_classes"] = sum(len(s["classes"]) for s in states)
     ctx.cov["generated_choices"] = sum(len(k["combos"]) for s in states for k in s["classes"])
     # ---- choose what to replay: per state and distinct selection, `per_class` of the choices that produce it
-    per_class = 1 if q else 3
+    per_class = 1
     fmts = ["2a"] if q else ["2a", "pack-0.92"]
     tpls = {}
     bases = {}
@@ -548,9 +565,9 @@ def run(ctx):
         combos = []
         for k in sorted(st["classes"], key=lambda k: sorted(k["S"])):
             cs = sorted(k["combos"], key=lambda x: (len(x["sel"]) + len(x["excl"]), str(x)))
-            picks = cs[:1] + (ctx.rng.sample(cs[1:], min(len(cs) - 1, per_class - 1)) if per_class > 1 and len(cs) > 1 else [])
-            if q and len(cs) > 1 and nstate % 3 == 0:
-                picks.append(cs[-1])
+            picks = cs[:per_class]
+            if len(cs) > 1 and nstate % 3 == 0:          # every third state: also a random other choice of each class
+                picks.append(ctx.rng.choice(cs[1:]))
             combos.extend(picks)
         if nstate % (12 if q else 4) == 0 and st["h"]:
             paths = st["paths"]
@@ -560,12 +577,9 @@ def run(ctx):
             combos.append({"all": True, "sel": [], "excl": [paths[-1]], "flags": "merge"})
         nstate += 1
         for fmt in fmts:
-            if fmt != "2a" and nstate % 3:
+            if fmt != "2a" and nstate % 4:
                 continue
-            jobs.append((fmt, st["basis"], tpls[(fmt, st["basis"])], st, combos, (not q) or nstate % 3 == 1))
-    core.fork_map(ctx, replay_states, jobs, chunks_per_proc=8)
-    rows = ctx.collected
-    ctx.collected = []
+            jobs.append((fmt, st["basis"], tpls[(fmt, st["basis"])], st, combos, nstate % (3 if q else 2) == 1))
     # ---- fault half
     tplb = {(fmt, bn): make_template(ctx.workdir, fmt, bn, b, tree_less=True) for fmt in fmts for bn, b in bases.items()}
     cand = [s for s in states if s["basis"] == "B0" and len(s["h"]) == 2 and any(k["ok"] and 0 < len(k["S"]) < 4 for k in s["classes"])]
@@ -583,11 +597,14 @@ def run(ctx):
     if not q:
         fjobs.append({"fmt": "pack-0.92", "basis": "B0", "tplb": tplb[("pack-0.92", "B0")], "st": mod, "combo": ALL,
                       "points": {"stride": 1, "named": named}})
+    fjobs = [dict(j, part=(i, 4)) for j in fjobs for i in range(4)]
     core.fork_map(ctx, fault_sweep, fjobs, chunks_per_proc=1)
     frows = ctx.collected
     ctx.collected = []
     ctx.cov["fault_runs"] = len(frows)
-    rows += frows
+    core.fork_map(ctx, replay_states, jobs, chunks_per_proc=8)
+    rows = frows + ctx.collected
+    ctx.collected = []
     if not rows:
         ctx.machinery("nothing was replayed")
     # ---- E3: TLC judges every recorded commit
@@ -605,10 +622,10 @@ def run(ctx):
                 o.get("detail"), "refused / failed" if o["outcome"] == "ok" else "ok", shape(row)), row)
     ctx.cov["exhaustive"] = bool(not q)
     ctx.rule("states = every edit sequence of length <= 2 over {add, remove, rename, modify, chmod, delete-on-disk, kind change} from "
-             "basis B0 (a, d/, d/b) and B1 (a*, c/, c/d/, c/d/b@) enumerated by TLC (quick: deepest level sampled 1/6; thorough: "
-             "plus 1/40 of the length-3 sequences and pack-0.92); per state every distinct selected-id set reachable with <= 2 "
-             "specific files and <= 1 exclude, replayed with 1 (quick) / 3 (thorough) of the path choices that produce it, each followed "
-             "by a commit of everything left; plus merge / conflict refusals; fault half: every mutating repository/branch transport "
+             "basis B0 (a, d/, d/b) and B1 (a*, c/, c/d/, c/d/b@) enumerated by TLC (quick: deepest level sampled 1/36; thorough: all, "
+             "plus 1/100 of the length-3 sequences); per state every distinct selected-id set reachable with <= 2 "
+             "specific files and <= 1 exclude (2 for single edits), replayed with the smallest path choice that produces it (every third state: "
+             "a second, random one), every second / third state followed by a commit of everything left; thorough: every fourth state also on pack-0.92; plus merge / conflict refusals; fault half: every mutating repository/branch transport "
              "operation of sampled commits fails once, plus message_callback, tree read, pre_commit and post_commit hooks raising; "
              "non-trivial = at least one edit and a partial selection, or an injected fault")
     ctx.assume("an injected fault is an exception raised instead of the operation; the process survives (crash atomicity is C04)")
